@@ -411,6 +411,10 @@ pub fn real_vs_complex(cx: &RunCtx) {
             inputs.push(format!("{}({})", n, x));
             inputs.push(format!("{}(-{})", n, x));
         }
+        // c +- m*10^-j around -1/e, -1, 0, 0.5, 1, 2: the thin bands next to the edges of the real domains
+        for x in refmodel::families::neighbourhoods() {
+            inputs.push(format!("{}({})", n, x));
+        }
     }
     for x in &ext {
         for o in ["+", "-", "*", "/", "^"] {
